@@ -457,10 +457,16 @@ func aggregate(cfg *propCfg, tier string, seed uint64, b *build, outs []shardOut
 	replayDir := filepath.Join(verifDir, "work", "replays")
 	os.MkdirAll(replayDir, 0o755)
 	var knownLines, violLines []string
+	knownIdx := map[string]int{}
 	for n, k := range keys {
 		v := byKey[k]
 		if what, ok := known.match(cfg.ID, v.Violation); ok {
-			knownLines = append(knownLines, fmt.Sprintf("KNOWN-FINDING: property=%s %s [%s]", cfg.ID, what, k))
+			if i, seen := knownIdx[what]; seen {
+				knownLines[i] = strings.TrimSuffix(knownLines[i], "]") + ", " + k + "]"
+			} else {
+				knownIdx[what] = len(knownLines)
+				knownLines = append(knownLines, fmt.Sprintf("KNOWN-FINDING: property=%s %s [%s]", cfg.ID, what, k))
+			}
 			continue
 		}
 		newViol++
